@@ -136,6 +136,9 @@ Definition run_json (spec : bool) (transport : sexp) (fname c : list N) (err : s
   let tl := match transport with SList l => l | _ => [] end in
   let pipe := has_atom "pipe" tl in
   let stream := has_atom "stream" tl in
+  (* which counting of the dropped bytes the implementation under test uses, as observed by the harness probe
+     (harness/c17 probeCounting): atom lfcount = the code before the repair of cr-window (crfix = false) *)
+  let crfix := negb (has_atom "lfcount" tl) in
   let e := match err with
            | SList [_; Atom v; Atom w] =>
                match parse_Z v, parse_Z w with Some z, Some y => Some (Some (z, y)) | _, _ => None end
@@ -155,7 +158,7 @@ Definition run_json (spec : bool) (transport : sexp) (fname c : list N) (err : s
                                else false
                    | None => pos_eof_chk sw ctx c x line col
                    end in
-        let disc := if pipe then pipe_discarded c steps else if has_atom "whole" tl then 0 else seek_discarded c eraw in
+        let disc := if pipe then pipe_discarded crfix c steps else if has_atom "whole" tl then 0 else seek_discarded crfix c eraw in
         let lone := count_lone_cr c (Z.to_nat disc) in
         let family :=
           if stream && negb (match etrue, eraw with Some a, Some b => a =? b | _, _ => true end)
@@ -168,22 +171,22 @@ Definition run_json (spec : bool) (transport : sexp) (fname c : list N) (err : s
         else bad [family]
       else
         let '(contents, errline, je) :=
-          if pipe then pipe_report c steps rerr eraw
+          if pipe then pipe_report_g crfix c steps rerr eraw
           else if has_atom "whole" tl then
             (* data module (module_loader.go LoadJSONWithMeta): the whole file, no window, line base 0 *)
             (c, 0, match eraw with Some E => JSyntax E | None => JUnexpectedEOF end)
-          else seek_report c eraw in
+          else seek_report_g crfix c eraw in
         let h := gojq_prefix ++ json_error_header sw fname contents errline je in
         let state_ok :=
           match state with
           | [Atom o; Atom l] =>
               match parse_Z o, parse_Z l with
-              | Some o, Some l => let st := pipe_run c steps in (p_start st =? o) && (p_line st =? l)
+              | Some o, Some l => let st := pipe_run_g crfix c steps in (p_start st =? o) && (p_line st =? l)
               | _, _ => false
               end
           | _ => true
           end in
-        if negb state_ok then bad [A "state"; zat (p_start (pipe_run c steps)); zat (p_line (pipe_run c steps))]
+        if negb state_ok then bad [A "state"; zat (p_start (pipe_run_g crfix c steps)); zat (p_line (pipe_run_g crfix c steps))]
         else if prefixb h stderr then A "ok" else bad [hexa h]
   | _, _ => A "undecodable"
   end.
